@@ -61,6 +61,11 @@ var c20DrvScripts = []string{
 	"x = \"line1\\\r\nline2\";\r\nreturn len(x);\r\n",
 	"return \"\r\n\" == \"\n\";",
 	`return "100%";`,
+	`panic("quota 100% used by " + Name);`,
+	`if (Age > 1) { panic("CPU above 90%d percent"); } return 1;`,
+	`"50%" = 1;`,
+	`return 1 % 0;`,
+	`x = "%s%s%s%n"; return x + 1;`,
 	`return ["%d", "50%s", "%", "%%", "%!t"];`,
 	`return Pct;`,
 	"return \"abc\n",
